@@ -25,7 +25,7 @@ import (
 	"verifharness/threadgen"
 )
 
-func main() { Main("C18", check, threadgen.Gen, threadgen.GenExpr, threadgen.GenObj, stateGen) }
+func main() { Main("C18", check, stateGen, threadgen.Gen, threadgen.GenExpr, threadgen.GenObj) }
 
 const imp = "From Coq Require Import String.\nFrom Sdfx Require Import Sdf.C18Corr.\nOpen Scope float_scope.\nOpen Scope string_scope."
 
